@@ -120,8 +120,8 @@ Proof.
   rewrite Hlen.
   replace (Nat.leb (String.length (zeros lead ++ dec z) + 3) 3) with false
     by (symmetry; apply Nat.leb_gt; lia).
-  pattern 3 at 1 2. rewrite <- Hl. rewrite take_last_app, drop_last_app, Hi, int_of_string_zeros_dec.
-  reflexivity.
+  pattern 3 at 1 2. rewrite <- Hl. rewrite take_last_app, drop_last_app, (int_py _ _ Hi), (int_py _ _ (int_of_string_zeros_dec lead z)).
+  rewrite !dec_Z_of_N. reflexivity.
 Qed.
 
 Theorem zaid_split lead z a : (1 <= z <= 118)%N -> (a <= 999)%N ->
